@@ -67,6 +67,14 @@ def sanitize_variable_names(
                 next(expr_parts)
                 new_name = sanitize_variable_name(variable_name, env, template=template)
                 if new_name != variable_name:
+                    # Different names can sanitize to the same identifier
+                    # (e.g. `a b` and `a-b`); keep their aliases apart.
+                    base_name, suffix = new_name, 0
+                    while aliases.get(new_name, variable_name) != variable_name:
+                        suffix += 1
+                        new_name = f"{base_name}_{suffix}"
+                    if new_name != base_name and variable_name in env:
+                        env[new_name] = env[variable_name]
                     # Names that are already valid need no alias (and must not
                     # be substituted back textually).
                     aliases[new_name] = variable_name
